@@ -43,6 +43,10 @@ type loopInfo struct {
 	iters    []ssa.Value
 	entrySt  *State // state right after havoc+assume at the header
 	preSt    *State // state at loop entry before havoc
+	backIns   []edgeIn
+	backSeen  int
+	backTotal int
+	flushed   bool
 }
 
 type FnExec struct {
@@ -78,6 +82,7 @@ type FnExec struct {
 	recDefs     map[string]*recDefInfo
 	formalEpoch *Epoch
 	formalKeys  []string
+	freezeHV    bool
 }
 
 func (g *Gen) NewFnExec(fn *ssa.Function, c *Contract) *FnExec {
@@ -120,6 +125,38 @@ func (fx *FnExec) Assert(st *State, name, kind, text string, phi Term) {
 		fx.obls = append(fx.obls, o)
 	}
 	fx.sc.Assume(Implies(st.R, phi))
+}
+
+// splitConj splits a clause into the conjuncts of its top-level conjunction, distributing a
+// leading implication: P ==> (A && B) gives P ==> A and P ==> B. Each part becomes its own
+// obligation, so a failure names the precise conjunct.
+func splitConj(e SpecExpr) []SpecExpr {
+	switch x := e.(type) {
+	case SBinary:
+		switch x.Op {
+		case "&&":
+			return append(splitConj(x.X), splitConj(x.Y)...)
+		case "==>":
+			var out []SpecExpr
+			for _, p := range splitConj(x.Y) {
+				out = append(out, SBinary{"==>", x.X, p})
+			}
+			return out
+		}
+	}
+	return []SpecExpr{e}
+}
+
+// AssertClause evaluates a contract clause in env and records one obligation per conjunct.
+func (fx *FnExec) AssertClause(st *State, env *SpecEnv, name, kind string, cl Clause) {
+	parts := splitConj(cl.Expr)
+	for i, p := range parts {
+		n := name
+		if len(parts) > 1 {
+			n = fmt.Sprintf("%s/%d", name, i+1)
+		}
+		fx.Assert(st, n, kind, cl.Src, env.EvalBool(p))
+	}
 }
 
 func (fx *FnExec) paramValueNames() []string {
@@ -274,6 +311,7 @@ func (fx *FnExec) Run() (err error) {
 	st := &State{R: TTrue, cells: map[*ssa.Alloc]Term{}, heap: map[string]Term{}, iters: map[ssa.Value]Term{}}
 	st.epoch = fx.newEpoch()
 	st.nextRef = fx.sc.Fresh("nextRef", SInt)
+	st.hv = fx.sc.Fresh("hv", SInt)
 	fx.sc.Assume(App(">", SBool, st.nextRef, TZero))
 	for _, p := range fn.Params {
 		t := fx.sc.Fresh("p$"+p.Name(), fx.tc.SortOf(p.Type()))
@@ -342,6 +380,13 @@ func (fx *FnExec) Run() (err error) {
 		}
 		fx.execBlock(cur, b)
 	}
+	for _, li := range fx.loopList {
+		if !li.flushed && len(li.backIns) > 0 {
+			li.flushed = true
+			m := fx.Merge(fmt.Sprintf("back%d", li.ordinal), li.backIns)
+			fx.backEdge(m, m.R, li)
+		}
+	}
 	fx.finish()
 	return nil
 }
@@ -393,6 +438,7 @@ func (fx *FnExec) findLoops() {
 					fx.loops[s] = li
 					fx.loopList = append(fx.loopList, li)
 				}
+				li.backTotal++
 				// natural loop: everything that reaches b without passing through s
 				var stack []*ssa.BasicBlock
 				if !li.blocks[b] {
@@ -567,7 +613,14 @@ func (fx *FnExec) backEdge(st *State, cond Term, li *loopInfo) {
 func (fx *FnExec) addEdge(from, to *ssa.BasicBlock, cond Term, st *State) {
 	if fx.isBackEdge(from, to) {
 		if li := fx.loops[to]; li != nil {
-			fx.backEdge(st, cond, li)
+			// all back edges of a loop are merged and the invariant is checked once
+			li.backIns = append(li.backIns, edgeIn{cond: cond, st: st})
+			li.backSeen++
+			if li.backSeen == li.backTotal {
+				li.flushed = true
+				m := fx.Merge(fmt.Sprintf("back%d", li.ordinal), li.backIns)
+				fx.backEdge(m, m.R, li)
+			}
 		}
 		return
 	}
@@ -805,7 +858,10 @@ func (fx *FnExec) execAlloc(st *State, in *ssa.Alloc) {
 	fx.vals[in] = ref
 	p := &Ptr{Kind: PHeap, Ref: ref, ObjT: et, T: et}
 	fx.ptrs[in] = p
+	// zero-initialising a fresh object changes nothing an existing reader can observe
+	fx.freezeHV = true
 	fx.StoreTo(st, p, fx.tc.Zero(et))
+	fx.freezeHV = false
 }
 
 func (fx *FnExec) execUnOp(st *State, in *ssa.UnOp) {
@@ -1380,8 +1436,7 @@ func (fx *FnExec) finish() {
 	for _, cl := range fx.contract.Ensures {
 		env := fx.specEnv(exit, fx.entry, nil, false)
 		env.bindResults(fx.fn.Signature, results)
-		phi := env.EvalBool(cl.Expr)
-		fx.Assert(exit, "ensures."+cl.Label, "ensures", cl.Src, phi)
+		fx.AssertClause(exit, env, "ensures."+cl.Label, "ensures", cl)
 	}
 	// declared frame must cover the inferred write set
 	if fx.contract.Modifies != nil {
